@@ -799,4 +799,4 @@ def run_one(case):
 
 
 def crash_sig(case):
-    return f"{case.get('e')}:{case.get('mode')}"
+    return str(case.get('key') or f"{case.get('e')}:{case.get('mode')}")
